@@ -46,6 +46,9 @@ typedef struct vreport {
 	long counters[16];
 	int  opidx; // op being executed (for crash reports)
 	char lastop[64];
+	int  nknown; // known findings hit (soft: the case continued)
+	char known_sig[8][120];
+	long known_cnt[8];
 } vreport;
 
 extern vreport *vr; // never NULL (points at a static one by default)
@@ -56,6 +59,14 @@ void vr_count(int idx, long n);
 // record a violation and exit(1) (never returns)
 void vr_fail(const char *sig, const char *fmt, ...) __attribute__((noreturn, format(printf, 2, 3)));
 void vr_at(int opidx, const char *name);
+// Known findings (read-only list installed by the driver from known_findings.json).  vr_soft_fail
+// reports a violation unless its signature is listed as known, in which case the hit is counted
+// and the case continues, so one recorded defect does not hide everything behind it.
+#define VR_MAXKNOWN 64
+extern char vr_known_sigs[VR_MAXKNOWN][160];
+extern int  vr_nknown_sigs;
+int         vr_is_known(const char *sig);
+void        vr_soft_fail(const char *sig, const char *fmt, ...) __attribute__((format(printf, 2, 3)));
 
 #define VR_CHECK(cond, sig, ...)                      \
 	do {                                          \
